@@ -260,13 +260,31 @@ def _sync_return_tie_events(slack: int, record_first: bool) -> List[Dict[str, An
     return evs
 
 
+def _idle_stream_sync_events(record_first: bool) -> List[Dict[str, Any]]:
+    """a stream synchronisation on a stream that has had no activity in the window, returning while a long kernel of ANOTHER stream is still running,
+    followed by host work: nothing on the device had to finish for that call, so no path may count the kernel and the host work that overlaps it"""
+    from hv import synth
+
+    b = 1_000_000
+    evs = [synth.host_op("aten::first_op", b, 5), synth.profiler_step(1, b + 5, 995),
+           synth.host_op("aten::add", b + 10, 20), synth.launch(b + 12, 8, 1)]
+    k = synth.kernel("void gemm_kernel", b + 30, 600, 7, 1)  # runs until b + 630
+    rec = {"ph": "X", "cat": "cuda_sync", "name": "Stream Sync", "pid": 0, "tid": 9, "ts": b + 40, "dur": 10, "args": {"correlation": 2, "stream": 9}}
+    evs += [rec, k] if record_first else [k, rec]
+    evs += [synth.launch(b + 40, 10, 2, name="cudaStreamSynchronize"), synth.host_op("aten::relu", b + 60, 500), synth.host_op("aten::mul", b + 570, 400),
+            synth.profiler_step(2, b + 1000, 20), synth.host_op("aten::sum", b + 1002, 10)]
+    return evs
+
+
 def _case(seed: int) -> Dict[str, Any]:
     from hv import cpgen, rt
 
     rng = random.Random(seed)
     evs = cpgen.gen_cp_events(abs(seed), n_steps=3, n_streams=1 + seed % 3, annotations=bool(seed % 2), n_threads=2 if seed % 4 == 1 else 1)
     inst = 0 if seed % 2 else (0, 1)
-    if seed < 0:  # crafted: -1 .. -4
+    if seed in (-5, -6):
+        evs, inst = _idle_stream_sync_events(record_first=(seed == -5)), 0
+    elif seed < 0:  # crafted: -1 .. -4
         evs, inst = _sync_return_tie_events(slack=(0 if seed in (-1, -2) else 1), record_first=seed in (-1, -3)), 0
     ns = seed >= 0 and seed % 5 == 4
     if ns:
@@ -337,8 +355,8 @@ def bounded(ctx):
     from hv import rt
 
     n = 40 if not ctx.thorough else 500
-    res = rt.pmap(_case, [-1, -2, -3, -4] + [ctx.seed * 97 + i for i in range(n)], ctx.procs)
-    return rt.summarise(res, f"{PROP}.bounded", f"4 crafted traces (a blocking synchronisation returning exactly when / one unit after the awaited kernel ends, followed by host work) + {n} graphs built by the real analysis from generated causally consistent traces; independent longest-path DP; two rounds of random re-weighting "
+    res = rt.pmap(_case, [-1, -2, -3, -4, -5, -6] + [ctx.seed * 97 + i for i in range(n)], ctx.procs)
+    return rt.summarise(res, f"{PROP}.bounded", f"6 crafted traces (a blocking synchronisation returning exactly when / one unit after the awaited kernel ends, followed by host work; a synchronisation of an idle stream while another stream is busy) + {n} graphs built by the real analysis from generated causally consistent traces; independent longest-path DP; two rounds of random re-weighting "
                         "(0 / 1 / 50 / 500 on ~30% of the edges) with recomputation on the same graph object")
 
 
